@@ -98,18 +98,29 @@ func vh_C04_L1_simultaneous_open() {
 	b := vHandshakeEndpoint(ilB, zB)
 	a.initClient()
 	b.initClient()
-	for round := 0; round < 8; round++ {
+	dropAt := vPick(7) - 1 // one of the first six packets is lost, or none
+	idx := 0
+	wire := func(x, y *Association) int {
 		n := 0
-		for _, raw := range vWriterWake(a) {
-			vInbound(b, raw)
+		for _, raw := range vWriterWake(x) {
+			if idx != dropAt {
+				vInbound(y, raw)
+			}
+			idx++
 			n++
 		}
-		for _, raw := range vWriterWake(b) {
-			vInbound(a, raw)
-			n++
-		}
+		return n
+	}
+	for round := 0; round < 12; round++ {
+		n := wire(a, b) + wire(b, a)
 		if n == 0 {
-			break
+			if a.getState() == established && b.getState() == established {
+				break
+			}
+			vFireRtx(a, a.t1Init)
+			vFireRtx(a, a.t1Cookie)
+			vFireRtx(b, b.t1Init)
+			vFireRtx(b, b.t1Cookie)
 		}
 	}
 	vCheckAgreement(a, b, ilA, ilB, zA, zB)
